@@ -139,12 +139,12 @@ Definition macro_bound (m : macro) (args : list expr) (kwargs : list (str * expr
             (bind_positional (m_params m) args).
 
 (** What a call writes depends on the caller's context only through the macro
-    definition itself, the values of the arguments (and of the defaults of the
-    parameters left out), the root globals, the copy depth, the depth limit and
-    the template name: not through locals, counters, loop variables, block
-    scopes, cycles or the other macros. *)
+    macros defined so far (the body may call them), the values of the arguments
+    (and of the defaults of the parameters left out), the root globals, the copy
+    depth, the depth limit and the template name: not through locals, counters,
+    loop variables, block scopes or cycles. *)
 Theorem call_tag_isolated g ld fuel name args kwargs c1 c2 b :
-  assoc name (macros c1) = assoc name (macros c2) ->
+  macros c1 = macros c2 ->
   root_globals c1 = root_globals c2 ->
   copy_depth c1 = copy_depth c2 ->
   dlimit c1 = dlimit c2 ->
